@@ -79,7 +79,12 @@ def run(ctx, res):
     if f is None:
         raise BrokenAnalysis("my_crc32c_sse42 not compiled in this configuration")
     s = prog.need("my_crc32c_slicing", su)
-    crcrule.check(ctx, res, "C17.R2", [("my_crc32c_sse42", "libmy/crc32c-sse42.c"), ("my_crc32c_slicing", su)])
+    try:
+        crcrule.check(ctx, res, "C17.R2", [("my_crc32c_sse42", "libmy/crc32c-sse42.c"), ("my_crc32c_slicing", su)])
+    except BrokenAnalysis as e:
+        # the interpretation cannot be carried through (for example a lookup table that is not affine - which R1 reports as
+        # the wrong constant it is): no verdict from R2; whatever the other rules found stands
+        res.undecided("C17.R2", str(e))
 
     # ---- R3 ---------------------------------------------------------------------------------
     res.floor("C17.R3", 2)
